@@ -145,3 +145,289 @@ def run_c07(pid, tier):
     chk.assumptions += ["md5 0.7 / base64 0.22 crates: modelled (own MD5 and base64 in Coq), tied by correspondence and by the hashlib oracle",
                         "collision resistance of the 48-bit MD5 prefix is not claimed (name_changes_partial)"]
     return finish_checks(chk, proof, info, disagree, oracle_fail, n_cases)
+
+# ------------------------------------------------------------------------------------------ shared generators
+PUNCT = "!#$%&'()+,-.;=@[]^_`{}~ \"\\"
+def ascii_name(rng, allow_slash=False):
+    n = rng.randint(1, 6)
+    s = "".join(rng.choice("abXY09_" + PUNCT * 2) for _ in range(n))
+    s = s.replace("/", "")
+    if s in (".", ".."): s = "d" + s
+    return s
+def file_name(rng):
+    """a final path component with an extension (may contain several dots, trailing dot, odd punctuation)"""
+    while True:
+        stem = rng.choice(STEMS + [ascii_name(rng), ascii_name(rng), "9" + ascii_name(rng), "_" + ascii_name(rng)])
+        ext = rng.choice(EXTS + [ascii_name(rng).replace(".", ""), "css", "js"])
+        f = stem + "." + ext
+        if "/" in f or "\0" in f or split_name(f) is None or len(f.encode()) > 200: continue
+        return f
+
+def distinct_history(rng, nfiles, kinds="FAD", name_pool=None, unicode_ok=True):
+    """ops with pairwise distinct derived identifiers and url names"""
+    h = []; ids = set(); urls = set()
+    tries = 0
+    while len(h) < nfiles and tries < 200:
+        tries += 1
+        k = rng.choice(kinds)
+        f = rng.choice(name_pool) if name_pool else file_name(rng)
+        if not unicode_ok and not f.isascii(): continue
+        c = rand_bytes(rng, rng.choice([0, 1, 2, 5, 20, 64, 300]))
+        d = rng.choice(DIRS)
+        if k == "A":
+            url = rng.choice(["to/", "to/", "to/sub/", "v1.2/"]) + (rng.choice(name_pool) if name_pool else file_name(rng))
+            if not unicode_ok and not url.isascii(): continue
+            ident = py_ident(url); u = url.encode()
+            op = ("A", d + f, url, c)
+        else:
+            sn = split_name(f); ident = hashed_ident(f)
+            u = sn[0] + b"-" + py_slug(c) + b"." + sn[1]
+            op = (k, d + f, c)
+        # the file written for F/A must not collide with a directory/file used earlier in the case
+        if ident in ids or u in urls: continue
+        if k in "FA" and any(o[0] in "FA" and (o[1] == op[1] or o[1].startswith(op[1] + "/") or op[1].startswith(o[1] + "/")) for o in h): continue
+        ids.add(ident); urls.add(u); h.append(op)
+    return h
+
+def published_urls(h):
+    out = []
+    for op in h:
+        if op[0] == "A": out.append(op[2].encode())
+        else:
+            sn = split_name(op[1]); out.append(sn[0] + b"-" + py_slug(op[2]) + b"." + sn[1])
+    return out
+
+# ------------------------------------------------------------------------------------------ C08
+def run_c08(pid, tier):
+    chk = Check(pid, tier); rng = chk.rng
+    info = ensure_all()
+    proof = proof_step(pid, thorough=(tier == "thorough"))
+    hist = []
+    # every byte value alone and all together, through data and through files
+    hist.append([("D", "all.bin", bytes(range(256)))])
+    hist.append([("F", "all.bin", bytes(range(256)))])
+    for v in range(0, 256, 1 if tier == "thorough" else 5):
+        hist.append([("D", "b%d.bin" % v, bytes([v])), ("D", "c%d.bin" % v, bytes([v, v ^ 0x5c, 0x22, v]))])
+    for n in [0, 1, 2, 3, 100, 4096]:
+        hist.append([("D", "len%d.x" % n, rand_bytes(rng, n, "rand")), ("F", "f/len%d.y" % n, rand_bytes(rng, n, "ascii"))])
+    # names: every printable ASCII punctuation character in file names and url names; sampled non-ASCII
+    for ch in PUNCT:
+        if ch == "/": continue
+        nm = "a%sb.t%sx" % (ch, ch if ch not in "./" else "")
+        hist.append([("D", nm, b"d"), ("F", "dir/" + "n" + nm, b"f"), ("A", "src/x.js", "to/" + nm, b"a")])
+        hist = [h for h in hist if len(set(py_ident(op[2]) if op[0] == "A" else hashed_ident(op[1]) for op in h)) == len(h)]
+    for nm in ["é.css", "a\u200bb.txt", "x\u0300.png", "\U0001F600.js", "日本.語", "a\tb.c", "a\nb.c", "tab\x7f.x", "q\"uo.txt", "d\\q.bin", "{x}.{y}", "\ufeffbom.a"]:
+        hist.append([("D", nm, b"1"), ("A", "p/" + nm, "to/" + nm, b"2"), ("F", "z/" + "f" + nm, b"3")])
+    for _ in range(60 if tier == "quick" else 600):
+        hist.append(distinct_history(rng, rng.randint(1, 5)))
+    rs = run_histories(hist)
+    disagree = []; oracle_fail = []
+    for h, r in zip(hist, rs):
+        a, m = r["impl"], r["model"]
+        chk.count(impl_line(h).encode(), True)
+        if a.get("statics") != m.get("statics"):
+            ai = items_of(unhexs(a.get("statics", "-")))[1]; mi = items_of(unhexs(m.get("statics", "-")))[1]
+            k = next((i for i in range(max(len(ai), len(mi))) if i >= len(ai) or i >= len(mi) or ai[i] != mi[i]), 0)
+            disagree.append((h, "item text", (ai[k] if k < len(ai) else b"").decode("latin1"), (mi[k] if k < len(mi) else b"").decode("latin1")))
+    # oracle: compile what was generated and read content/name back
+    B = 80
+    for s in range(0, len(hist), B):
+        hs = hist[s:s + B]
+        res, outs, meta = rustc_statics_batch(hs, None)
+        for h, rr, o in zip(hs, res, outs):
+            if not rr["ok"]:
+                if meta.get("compile_failed") and "not run" in rr["error"]: continue
+                oracle_fail.append((h, rr["error"] or "generated statics module did not compile/run", meta.get("stderr", "")[:1500]))
+                continue
+            got = sorted(rr["entries"])
+            want = sorted(zip(published_urls(h), [op[-1] for op in h]))
+            # identifier collisions drop entries from STATICS; only fully distinct histories are judged on completeness
+            ids = [py_ident(op[2]) if op[0] == "A" else hashed_ident(op[1]) for op in h]
+            if len(set(ids)) == len(ids) and len(set(u for u, _ in want)) == len(want):
+                if got != want:
+                    oracle_fail.append((h, "compiled StaticFile content/name differ from the source bytes / published url name", dict(got=[(n.decode("latin1"), c.hex()[:80]) for n, c in got], want=[(n.decode("latin1"), c.hex()[:80]) for n, c in want])))
+    for h in hist[:1] + hist[60:62]:
+        chk.sample(dict(ops=[(op[0], op[1], op[2] if op[0] == "A" else len(op[2])) for op in h]))
+    chk.cov["rule"] = ("contents: all 256 byte values alone / in context / all together, lengths 0..4096; names with every printable ASCII punctuation character, quotes, backslash, "
+                       "control characters and sampled non-ASCII (incl. U+200B, U+0300, U+FEFF); entry points add_file, add_file_as, add_file_data (add_files / add_files_as through C09/C17); "
+                       "each generated statics.rs compared with the model byte for byte AND compiled with rustc, content/name read back. distinct by op list")
+    chk.assumptions += ["rustc's literal lexer: modelled in RustLit.v for the theorems, and exercised directly by the compile-and-read-back batches"]
+    return finish_checks(chk, proof, info, disagree, oracle_fail, len(hist))
+
+# ------------------------------------------------------------------------------------------ C09
+COLLIDERS = ["a.css", "a-b.css", "ab.css", "a.b.css", "a_b.css2", "A.css", "a.CSS", "a1.css", "a.cs", "a.csss", "b-.x", "b.x", "b_.x", "0.x", "9a.x", "Z.x", "z.x", "a-1.css", "aa.css"]
+def run_c09(pid, tier):
+    import itertools
+    chk = Check(pid, tier); rng = chk.rng
+    info = ensure_all()
+    proof = proof_step(pid, thorough=(tier == "thorough"))
+    hist = []; probes = []
+    def add(h):
+        urls = published_urls(h)
+        pr = list(urls)
+        for u in urls[:3]:
+            pr += [u[:-1], u + b"x", u.swapcase(), u[:-5] + bytes([u[-5] ^ 1]) + u[-4:] if len(u) > 5 else u, u.replace(b"-", b"_", 1)]
+        pr += [b"", b"a", b"~", b"to/"]
+        hist.append(h); probes.append(pr)
+    # all orders of small sets
+    for _ in range(6 if tier == "quick" else 40):
+        base = distinct_history(rng, rng.randint(2, 4), name_pool=COLLIDERS, unicode_ok=False)
+        for perm in itertools.permutations(base):
+            add(list(perm))
+    for _ in range(60 if tier == "quick" else 500):
+        add(distinct_history(rng, rng.randint(0, 9), name_pool=COLLIDERS if rng.random() < 0.6 else None, unicode_ok=False))
+    rs = run_histories(hist, probes=[[("G", p) for p in pr] for pr in probes])
+    disagree = []; oracle_fail = []
+    for h, r in zip(hist, rs):
+        a, m = r["impl"], r["model"]
+        chk.count(impl_line(h).encode(), len(h) >= 2)
+        al = items_of(unhexs(a.get("statics", "-")))[2]; ml = items_of(unhexs(m.get("statics", "-")))[2]
+        if al != ml: disagree.append((h, "STATICS line", al.decode("latin1"), ml.decode("latin1")))
+    B = 100
+    for s in range(0, len(hist), B):
+        hs = hist[s:s + B]; ps = probes[s:s + B]
+        res, outs, meta = rustc_statics_batch(hs, ps)
+        for k, (h, pr, rr) in enumerate(zip(hs, ps, res)):
+            if not rr["ok"]:
+                if meta.get("compile_failed") and "not run" in rr["error"]: continue
+                oracle_fail.append((h, rr["error"] or "generated statics module did not compile/run", meta.get("stderr", "")[:1500])); continue
+            names = [n for n, _ in rr["entries"]]
+            want = published_urls(h)
+            if any(not (x < y) for x, y in zip(names, names[1:])):
+                oracle_fail.append((h, "STATICS is not strictly ascending in byte order of name: %r" % names, None)); continue
+            if sorted(names) != sorted(want):
+                oracle_fail.append((h, "STATICS does not hold each added file exactly once: %r vs added %r" % (names, want), None)); continue
+            for p, g in zip(pr, rr["gets"]):
+                if (p in want and g != p) or (p not in want and g is not None):
+                    oracle_fail.append((h, "StaticFile::get(%r) returned %r" % (p, g), None)); break
+            # model's binary search against the compiled one
+            mq = rs[s + k]["model"].get("q", "-")
+            mg = [None if x == "!" else unhexs(x.split("=")[0]) for x in mq.split(",")] if mq != "-" else []
+            if mg != rr["gets"]:
+                disagree.append((h, "get() results", str(rr["gets"]), str(mg)))
+    for h in hist[:2] + hist[-1:]:
+        chk.sample(dict(ops=[(op[0], op[1], op[2] if op[0] == "A" else len(op[2])) for op in h]))
+    chk.cov["rule"] = ("file sets with pairwise distinct identifiers and url names drawn from prefix-colliding names %s plus random ones, through add_file / add_file_as / add_file_data in all orders (sets of 2-4) "
+                       "and random orders (up to 9); each generated module compiled with rustc; probes = every member plus truncations, extensions, case flips, hash neighbours, '-'->'_', empty string. "
+                       "non-trivial = at least 2 files; distinct by op list") % COLLIDERS[:8]
+    chk.assumptions += ["core::slice::binary_search_by: transcribed in Static.v (bs_loop) and compared with the compiled get() on every probe"]
+    return finish_checks(chk, proof, info, disagree, oracle_fail, len(hist))
+
+# ------------------------------------------------------------------------------------------ C16
+RUST_KEYWORDS = set("as break const continue crate else enum extern false fn for if impl in let loop match mod move mut pub ref return self Self static struct super trait true type unsafe use where while async await dyn abstract become box do final macro override priv typeof unsized virtual yield try gen".split())
+def run_c16(pid, tier):
+    chk = Check(pid, tier); rng = chk.rng
+    info = ensure_all()
+    proof = proof_step(pid, thorough=(tier == "thorough"))
+    hist = []
+    for ch in [chr(c) for c in range(32, 127) if chr(c) not in "/"]:
+        for nm in ["a%sb.c%sd" % (ch, ch if ch != "." else ""), "%sx.y" % ch if ch != "." else "x.y", "x%s.y" % ch, "9%s.7z" % ch]:
+            if split_name(nm) is None: continue
+            h = [("D", nm, b"d")]
+            if rng.random() < 0.5: h.append(("A", "s/f.js", "to/" + nm, b"a"))
+            if rng.random() < 0.3: h.insert(0, ("F", "q/" + nm, b"f"))
+            ids = [py_ident(op[2]) if op[0] == "A" else hashed_ident(op[1]) for op in h]
+            if len(set(ids)) == len(ids): hist.append(h)
+    for nm in ["1.css", "12.3.4", "a..b", "trail.", "_.x", "__a.b_", "a.b.c.d.e", "0", "-.-", "~.~", "é.css", "ß9.²x", "日本.語"]:
+        if split_name(nm): hist.append([("D", nm, b"")])
+        hist.append([("A", "s/f.js", "to/" + nm, b"")])
+    for _ in range(80 if tier == "quick" else 800):
+        hist.append(distinct_history(rng, rng.randint(1, 6)))
+    rs = run_histories(hist)
+    disagree = []; oracle_fail = []
+    ident_re = re.compile(r"^[A-Za-z_][A-Za-z0-9_]*$")
+    for h, r in zip(hist, rs):
+        a, m = r["impl"], r["model"]
+        chk.count(impl_line(h).encode(), True)
+        if a.get("names") != m.get("names"):
+            disagree.append((h, "get_names()", str(parse_names(a.get("names"))), str(parse_names(m.get("names")))))
+        got = dict(parse_names(a.get("names")))
+        urls = published_urls(h)
+        for op, u in zip(h, urls):
+            src = op[2] if op[0] == "A" else None
+            want = py_ident(src) if op[0] == "A" else hashed_ident(op[1])
+            asc = (src if op[0] == "A" else op[1]).isascii()
+            k = want.encode()
+            if k not in got:
+                oracle_fail.append((h, "get_names() has no identifier %r for %r (keys: %r)" % (want, op[1], sorted(got)), None)); break
+            if got[k] != u:
+                oracle_fail.append((h, "get_names()[%r] = %r, published url name is %r" % (want, got[k], u), None)); break
+            if asc and (not ident_re.match(want) or want == "_" or want in RUST_KEYWORDS):
+                oracle_fail.append((h, "identifier %r derived from ASCII name is not a legal Rust identifier" % want, None)); break
+    asc_hist = [h for h in hist if all((op[2] if op[0] == "A" else op[1]).isascii() for op in h)]
+    B = 120
+    for s in range(0, len(asc_hist), B):
+        hs = asc_hist[s:s + B]
+        res, outs, meta = rustc_statics_batch(hs, None)
+        for h, rr in zip(hs, res):
+            if not rr["ok"]:
+                if meta.get("compile_failed") and "not run" in rr["error"]: continue
+                oracle_fail.append((h, "rustc does not accept templates::statics::<ident>: " + rr["error"][:600], None)); continue
+            if rr.get("n_idents") != len(h):
+                oracle_fail.append((h, "not every file got its own identifier", None))
+    for h in hist[:3]:
+        chk.sample(dict(ops=[(op[0], op[1], op[2] if op[0] == "A" else len(op[2])) for op in h]))
+    chk.cov["rule"] = ("file names with every printable ASCII character at leading / interior / trailing positions of stem and extension, leading digits, multiple dots, trailing dot, leading underscore, "
+                       "to/-prefixed url names for add_file_as, plus random histories and a few non-ASCII names (model comparison only); identifiers checked against the regex, the keyword list, "
+                       "the model, and by naming every item in a rustc-compiled program. distinct by op list")
+    return finish_checks(chk, proof, info, disagree, oracle_fail, len(hist))
+
+# ------------------------------------------------------------------------------------------ C20
+def run_c20(pid, tier):
+    chk = Check(pid, tier); rng = chk.rng
+    info = ensure_all()
+    proof = proof_step(pid, thorough=(tier == "thorough"))
+    pool = ["a.css", "a-b.css", "a_b.css", "a.b-c", "a_b.c", "17.css", "9lives.png", "x y.js", "q!z.txt", "a.b.c", "trail.", "_u.v", "n17.css", "A.CSS", "plain.woff2", "d-1.2.min.js"]
+    hist = []; expect = []
+    for _ in range(150 if tier == "quick" else 1500):
+        h = distinct_history(rng, rng.randint(0, 5), name_pool=pool, unicode_ok=False)
+        h = [op for op in h if not any(c in (op[2] if op[0] == "A" else op[1]) for c in '"\\')]
+        added = {}
+        for op, u in zip(h, published_urls(h)):
+            if op[0] == "A": added[op[2]] = u
+            else: added[op[1].rsplit("/", 1)[-1]] = u
+        if added and rng.random() < 0.55:
+            ref = rng.choice(sorted(added))
+        else:
+            ref = rng.choice(pool + ["nope.css", "", "a", "a.b_c", "a-b_css", "17_css", "n17_css"])
+        # near misses of members: swap separator characters
+        if added and rng.random() < 0.25:
+            base = rng.choice(sorted(added)); i = rng.randrange(len(base))
+            if base[i] in "-._": ref = base[:i] + rng.choice("-._ !") + base[i+1:]
+        if '"' in ref or "\\" in ref: continue
+        hist.append(h + [("S", "scss/m%d.scss" % len(hist), ref)])
+        expect.append(added.get(ref))
+    rs = run_histories(hist)
+    disagree = []; oracle_fail = []
+    nmem = 0
+    for h, want, r in zip(hist, expect, rs):
+        a, m = r["impl"], r["model"]
+        ref = h[-1][2]
+        chk.count(impl_line(h).encode(), len(h) > 1)
+        ok_impl = a["op"][-1] == "ok" if a.get("op") else False
+        if want is not None: nmem += 1
+        if a.get("statics") != m.get("statics") or a.get("names") != m.get("names") or (m.get("q") != ("sass-ok" if ok_impl else "sass-err")):
+            disagree.append((h, "static_name / css item", a.get("op", ["?"])[-1][:200] + " " + str(parse_names(a.get("names"))), str(m.get("q")) + " " + str(parse_names(m.get("names")))))
+        names = dict(parse_names(a.get("names")))
+        css_id = ("m%d_css" % hist.index(h)).encode() if False else None
+        if want is None:
+            if ok_impl:
+                oracle_fail.append((h, "static_name(%r) for a name that was never added did not fail the build" % ref, str(parse_names(a.get("names"))))); continue
+        else:
+            if not ok_impl:
+                oracle_fail.append((h, "static_name(%r) failed although the file was added (published as %r)" % (ref, want), unhexs(a["op"][-1]).decode("latin1")[:300] if a.get("op") else None)); continue
+            css = b'a{b:"' + want + b'"}\n'
+            st = unhexs(a.get("statics", "-"))
+            cssurl = b"m%d-" % (len(h) - 1) 
+            sn = split_name(h[-1][1].replace(".scss", ".css"))
+            wurl = sn[0] + b"-" + py_slug(css) + b".css"
+            if wurl not in names.values():
+                oracle_fail.append((h, "compiled css is not published as <stem>-<hash of css>.css with the resolved url %r inside (names: %r)" % (want, sorted(names.values())), None))
+    for h in hist[:3]:
+        chk.sample(dict(ops=[(op[0], op[1], op[2] if op[0] in "AS" else len(op[2])) for op in h]))
+    chk.notes["references_to_members"] = nmem
+    chk.cov["rule"] = ("sets of 0-5 previously added files (add_file / add_file_as / add_file_data) from %s, then add_sass_file of a{b:static_name(\"<ref>\")} with <ref> a member (%d cases), a non-member, "
+                       "or a near miss obtained by swapping '-', '.', '_' in a member; compared: Err vs Ok, statics.rs and get_names() with the model; oracle: members resolve to their published name inside css "
+                       "that is itself published under its hash, non-members are build errors. non-trivial = at least one file added before; distinct by op list") % (pool, nmem)
+    chk.assumptions += ["rsass is an oracle: on scss of the fixed shape a{b:static_name(\"ref\")} it yields a{b:\"url\"}\\n or the builtin's error"]
+    return finish_checks(chk, proof, info, disagree, oracle_fail, len(hist))
